@@ -29,6 +29,7 @@ type fconn struct {
 	closed bool // Close() was called on this endpoint
 	nClose int
 	wfail  bool // next writes fail
+	tap    func([]byte) // called with every record this endpoint accepts for sending
 	log    *[]string
 }
 
@@ -75,6 +76,9 @@ func (c *fconn) Write(b []byte) (int, error) {
 		return 0, errors.New("write on closed conn")
 	}
 	c.out = append(c.out, append([]byte(nil), b...))
+	if c.tap != nil {
+		c.tap(b)
+	}
 	return len(b), nil
 }
 
